@@ -54,6 +54,8 @@ def run(rep):
 
     n_paths = 0
     groups_seen = set()
+    # without the `statistics` feature the gauges do not exist (thorough tier, feature-reduced builds)
+    has_stats = "statistics" in prog.features.get("aldrin_broker", [])
     for name, b in sorted(M.items()):
         try:
             paths = broker.event_paths(prog, b, ev)
@@ -64,7 +66,7 @@ def run(rep):
             evs = [tok_name(t) for t in broker.cancel_absent(toks)]
             for g in tab["group"]:
                 for side in ("insert", "remove"):
-                    hard = g[side]
+                    hard = [h for h in g[side] if has_stats or not h.startswith("GAUGE:")]
                     counts = [evs.count(h) for h in hard]
                     soft = g.get(side + "_soft", [])
                     scounts = [evs.count(h) for h in soft]
